@@ -432,7 +432,10 @@ impl Net {
                         v.open = false;
                         v.must_close = false;
                     }
-                    node.push(json!({"e":"ev","k":"closed","p":name}));
+                    // VERIF_FAULT=drop_closed: the harness misreports (withholds) Closed events (self-test of the check)
+                    if std::env::var("VERIF_FAULT").unwrap_or_default() != "drop_closed" {
+                        node.push(json!({"e":"ev","k":"closed","p":name}));
+                    }
                 }
                 NotificationEvent::NotificationStreamOpenFailure { peer, error } => {
                     let name = self.names.get(&peer).cloned().unwrap_or("?".into());
